@@ -22,7 +22,9 @@ def run(chk):
     per = 40 if thorough else 8
     cases = []
     for idx, cls in table:
-        for _ in range(per):
+        # classes carrying list-like or composite parameters get more assignments (boundary shapes cycle)
+        composite = any(W.classify(p.type)[0] not in ("int", "fixbytes") for p in cls.schema)
+        for _ in range(per * (3 if composite else 1)):
             try:
                 kw = W.gen_assignment(rng, cls)
                 cmd = cls(**kw)
